@@ -9,6 +9,7 @@ import (
 	"os"
 	"path/filepath"
 	"sort"
+	"sync"
 	"time"
 )
 
@@ -37,6 +38,7 @@ type Report struct {
 	start  time.Time
 	seen   map[uint64]bool
 	outDir string
+	mu     sync.Mutex // the tools call Count / Seen / Fail / Sample from worker goroutines
 }
 
 // MaxReported is the number of failures listed in the report (all of them
@@ -51,6 +53,8 @@ func NewReport(tool string, seed int64, outDir string) *Report {
 
 // Count adds n to the counter key of the distribution dist.
 func (r *Report) Count(dist, key string, n int) {
+	r.mu.Lock()
+	defer r.mu.Unlock()
 	m := r.Stats[dist]
 	if m == nil {
 		m = map[string]int{}
@@ -62,6 +66,8 @@ func (r *Report) Count(dist, key string, n int) {
 // Seen records an evaluated input; a non-trivial one counts towards
 // distinct_nontrivial once.
 func (r *Report) Seen(input string, nontrivial bool) {
+	r.mu.Lock()
+	defer r.mu.Unlock()
 	r.Evaluations++
 	if !nontrivial {
 		return
@@ -76,6 +82,8 @@ func (r *Report) Seen(input string, nontrivial bool) {
 
 // Sample keeps up to three sample inputs.
 func (r *Report) Sample(s string) {
+	r.mu.Lock()
+	defer r.mu.Unlock()
 	if len(r.Samples) < 3 {
 		if len(s) > 600 {
 			s = s[:600] + "...[cut]"
@@ -86,6 +94,8 @@ func (r *Report) Sample(s string) {
 
 // Fail records a failure and saves the input under the -out directory.
 func (r *Report) Fail(kind, detail, name, input string, flags []string) {
+	r.mu.Lock()
+	defer r.mu.Unlock()
 	r.FailureCount++
 	r.FailuresByKind[kind]++
 	file := ""
